@@ -129,7 +129,9 @@ def source_scan(modules=None):
 NAMESPACES = {'Lemmas.MiniPyFuel': 'Bridge.Py',
               # the theorem families about the translated THREAD programs live in their own namespaces
               'Translated.ThreadsMainA': 'Bridge.Translated.MainA', 'Translated.ThreadsMainB': 'Bridge.Translated.MainB',
-              'Translated.ThreadsSeatB': 'Bridge.Translated.SeatB', 'Translated.ThreadsClientA': 'Bridge.Translated.ClientA'}
+              'Translated.ThreadsSeatB': 'Bridge.Translated.SeatB', 'Translated.ThreadsClientA': 'Bridge.Translated.ClientA',
+              'Translated.ThreadsSeatC': 'Bridge.Translated.SeatC', 'Translated.ThreadsClientB': 'Bridge.Translated.ClientB',
+              'Translated.ThreadsMainC': 'Bridge.Translated.MainC'}
 
 
 def prop_module(prop):
